@@ -95,6 +95,97 @@ def pico_docs(ctx, n):
     return out
 
 
+COLORS = ["red", "blue", "lime", "#ff0", "#0ff", "#f0f", "#808080", "#fa0"]
+
+
+def edge_shape(rng, vb, force=None):
+    """path data of a shape placed relative to the viewBox: inside, outside, straddling one side by a little or a lot,
+    across a corner, with its bounding box but not its geometry reaching into the viewBox, or covering the viewBox"""
+    x0, y0, w, h = vb
+    x1, y1 = x0 + w, y0 + h
+    k = force or rng.choice(["inside", "outside", "side", "side", "side-small", "side-small", "corner", "bbox-only", "cover", "curve-side"])
+    sz = rng.choice([0.1, 0.2, 0.4]) * min(w, h)
+    f = lambda v: repr(round(v, 3))  # noqa: E731
+
+    def rect(ax, ay, bx, by):
+        return "M%s,%s L%s,%s L%s,%s L%s,%s Z" % (f(ax), f(ay), f(bx), f(ay), f(bx), f(by), f(ax), f(by))
+    if k == "inside":
+        ax, ay = rng.uniform(x0, x1 - sz), rng.uniform(y0, y1 - sz)
+        return k, rect(ax, ay, ax + sz, ay + sz)
+    if k == "outside":
+        side = rng.choice("lrtb")
+        off = rng.choice([0.0, 0.5, 3.0, sz])
+        if side == "l":
+            return k, rect(x0 - off - sz, y0 + 1, x0 - off, y0 + 1 + sz)
+        if side == "r":
+            return k, rect(x1 + off, y0 + 1, x1 + off + sz, y0 + 1 + sz)
+        if side == "t":
+            return k, rect(x0 + 1, y0 - off - sz, x0 + 1 + sz, y0 - off)
+        return k, rect(x0 + 1, y1 + off, x0 + 1 + sz, y1 + off + sz)
+    if k in ("side", "side-small", "curve-side"):
+        side = rng.choice("lrtb")
+        out = rng.choice([0.5, 1.0, 2.0, 4.0]) if k == "side-small" else rng.uniform(0.3, 1.5) * sz
+        inn = rng.uniform(0.5, 1.5) * sz
+        t = rng.uniform(0.1, 0.6)
+        if side == "l":
+            r = (x0 - out, y0 + t * h, x0 + inn, y0 + t * h + sz)
+        elif side == "r":
+            r = (x1 - inn, y0 + t * h, x1 + out, y0 + t * h + sz)
+        elif side == "t":
+            r = (x0 + t * w, y0 - out, x0 + t * w + sz, y0 + inn)
+        else:
+            r = (x0 + t * w, y1 - inn, x0 + t * w + sz, y1 + out)
+        if k == "curve-side":
+            cx, cy, rx, ry = (r[0] + r[2]) / 2, (r[1] + r[3]) / 2, (r[2] - r[0]) / 2, (r[3] - r[1]) / 2
+            kk = 0.5523
+            return k, "M%s,%s C%s,%s %s,%s %s,%s C%s,%s %s,%s %s,%s C%s,%s %s,%s %s,%s C%s,%s %s,%s %s,%s Z" % tuple(f(v) for v in (
+                cx + rx, cy, cx + rx, cy + kk * ry, cx + kk * rx, cy + ry, cx, cy + ry, cx - kk * rx, cy + ry, cx - rx, cy + kk * ry, cx - rx, cy,
+                cx - rx, cy - kk * ry, cx - kk * rx, cy - ry, cx, cy - ry, cx + kk * rx, cy - ry, cx + rx, cy - kk * ry, cx + rx, cy))
+        return k, rect(*r)
+    if k == "corner":
+        cx, cy = rng.choice([(x0, y0), (x1, y0), (x0, y1), (x1, y1)])
+        a, b = rng.uniform(0.3, 1.2) * sz, rng.uniform(0.3, 1.2) * sz
+        return k, rect(cx - a, cy - b, cx + b, cy + a)
+    if k == "bbox-only":
+        # a triangle beyond a corner whose bounding box reaches into the viewBox
+        cx, cy = rng.choice([(x1, y1), (x0, y0), (x1, y0), (x0, y1)])
+        sx, sy = (1 if cx == x1 else -1), (1 if cy == y1 else -1)
+        a = rng.uniform(0.2, 0.5) * sz
+        b = rng.uniform(2.0, 4.0) * a
+        P = [(cx - sx * a, cy + sy * b), (cx + sx * b, cy - sy * a), (cx + sx * b, cy + sy * b)]
+        return k, "M%s,%s L%s,%s L%s,%s Z" % tuple(f(v) for pt in P for v in pt)
+    return k, rect(x0 - sz, y0 - sz, x1 + sz, y1 + sz)
+
+
+def direct_doc(rng):
+    """a picosvg written directly: shapes placed relative to the viewBox, flat or in (nested) opacity groups"""
+    x, y = rng.choice([0, 0, 10, -5, -20, 30, 45.5, -7.5]), rng.choice([0, 0, 10, -5, -20, 30, 45.5, -7.5])
+    w, h = rng.choice([100, 50, 20, 64, 12.5, 150]), rng.choice([100, 50, 20, 64, 12.5, 150])
+    vb = (x, y, w, h)
+    kinds = []
+
+    def shape(force=None):
+        k, d = edge_shape(rng, vb, force)
+        kinds.append(k)
+        op = ' opacity="0.5"' if rng.random() < 0.15 else ""
+        return '<path d="%s" fill="%s"%s/>' % (d, rng.choice(COLORS), op)
+
+    def group(depth):
+        n = rng.randint(2, 3)
+        kids = []
+        # a group the clip empties, or leaves a single child of
+        gone = rng.random() < 0.3
+        for i in range(n):
+            force = rng.choice(["outside", "outside", "bbox-only"]) if gone and (i > 0 or rng.random() < 0.5) else None
+            kids.append(group(depth + 1) if depth < 2 and rng.random() < 0.3 else shape(force))
+        return '<g opacity="%s">%s</g>' % (rng.choice(["0.5", "0.25", "0.8"]), "".join(kids))
+    body = []
+    for _ in range(rng.randint(1, 5)):
+        body.append(group(0) if rng.random() < 0.35 else shape())
+    text = ('<svg xmlns="http://www.w3.org/2000/svg" viewBox="%s %s %s %s"><defs/>%s</svg>' % (x, y, w, h, "".join(body)))
+    return text, kinds
+
+
 def judge_doc(ctx, text, npts=40):
     SVG, Rect, T = impl()
     rec = skia_trace.Recorder()
@@ -106,15 +197,37 @@ def judge_doc(ctx, text, npts=40):
     o2, viol = common.outcome_of(lambda: SVG.fromstring(out).checkpicosvg())
     if o2 != "ok" or viol:
         return "result is not a picosvg: %s %s" % (o2, viol), True
+    # the result must be a picosvg: Spec.Pico (Lean) on the output tree, rounding of path numbers aside (the clip works
+    # on Skia's single-precision coordinates and is not followed by a rounding pass)
+    from lxml import etree as _et
+    import treewire as _tw
+    from props import c01 as _c01
+    root_ = _et.fromstring(out.encode("utf-8"), _et.XMLParser(remove_blank_text=True))
+    gv = [m for m in _c01.grammar_check(ctx, [(_tw.encode(root_), 3, False)])[0] if "not rounded" not in m]
+    if gv:
+        return "result is not a picosvg (Spec.Pico): %s" % gv[:3], True
+    import re as _re
+    if _re.search(r"<path(?![^>]*\sd=)[^>]*>", out) or _re.search(r'<path[^>]*\sd=""', out):
+        return "a shape with no geometry left is kept as an empty path: %s" % out[:300], True
     A = render.Doc(text, ctx.driver)
     B = render.Doc(out, ctx.driver)
     A.eps = B.eps = 0.15
     vb = A.view_box()
     rng = ctx.rng
     changed = text != out
-    for _ in range(npts):
+    for i_ in range(npts):
         x = rng.uniform(vb[0] - 0.3 * vb[2], vb[0] + 1.3 * vb[2])
         y = rng.uniform(vb[1] - 0.3 * vb[3], vb[1] + 1.3 * vb[3])
+        if i_ % 3 == 0:
+            # close to a border, on either side of it
+            off = rng.choice([-2.5, -1.0, -0.4, 0.4, 1.0, 2.5])
+            side = rng.choice("lrtb")
+            if side in "lr":
+                x = (vb[0] - off) if side == "l" else (vb[0] + vb[2] + off)
+                y = rng.uniform(vb[1], vb[1] + vb[3])
+            else:
+                y = (vb[1] - off) if side == "t" else (vb[1] + vb[3] + off)
+                x = rng.uniform(vb[0], vb[0] + vb[2])
         if min(abs(x - vb[0]), abs(x - vb[0] - vb[2]), abs(y - vb[1]), abs(y - vb[1] - vb[3])) < 0.3:
             continue
         la, lb = A.point(x, y), B.point(x, y)
@@ -139,6 +252,18 @@ def bbox_judge(ctx, n):
     found = []
     for _ in range(n):
         d = c13.rshape_d(rng) if rng.random() < 0.5 else docgen.rpath_d(rng)
+        if rng.random() < 0.25:
+            # cubics with structure: symmetric arches (the cubic term of one coordinate vanishes), degree-elevated
+            # quadratics (it vanishes for both), S-curves with two interior extrema, a single quadratic
+            x0, y0, w, h = rng.randint(0, 20), rng.randint(20, 40), rng.randint(8, 30), rng.randint(5, 25)
+            d = rng.choice([
+                "M%d,%d C%d,%d %d,%d %d,%d" % (x0, y0, x0, y0 - h, x0 + w, y0 - h, x0 + w, y0),
+                "M%d,%d C%d,%d %d,%d %d,%d" % (x0, y0, x0 + w, y0 - h, x0 + 2 * w, y0 - h, x0 + 3 * w, y0),
+                "M%d,%d C%d,%d %d,%d %d,%d" % (x0, y0, x0 + 2 * w, y0 - 2 * h, x0 + 4 * w, y0 - 2 * h, x0 + 6 * w, y0 + 0),
+                "M%d,%d C%d,%d %d,%d %d,%d" % (x0, y0, x0 - w, y0 - h, x0 + 2 * w, y0 + h, x0 + w, y0),
+                "M%d,%d Q%d,%d %d,%d" % (x0, y0, x0 + w, y0 - 2 * h, x0 + 2 * w, y0),
+                "M%d,%d C%d,%d %d,%d %d,%d Z" % (y0, x0, y0 - h, x0, y0 - h, x0 + w, y0, x0 + w),
+            ])
         p = T.SVGPath(d=d)
         o, bb = common.outcome_of(lambda: p.bounding_box())
         if o != "ok":
@@ -218,6 +343,12 @@ def search(ctx, disagreements):
     if not ctx.driver_ok:
         return found
     docs = pico_docs(ctx, 120 if ctx.thorough() else 30)
+    nd = 1200 if ctx.thorough() else (600 if ctx.escalate else 250)
+    for _ in range(nd):
+        t, kinds = direct_doc(ctx.rng)
+        for k in kinds:
+            ctx.count("placed:" + k)
+        docs.append(t)
     nontrivial = 0
     for t in docs:
         o, res = common.outcome_of(lambda: judge_doc(ctx, t))
